@@ -15,7 +15,6 @@ import (
 	"github.com/form3tech-oss/f1/v2/internal/envsettings"
 	"github.com/form3tech-oss/f1/v2/internal/metrics"
 	"github.com/form3tech-oss/f1/v2/internal/options"
-	"github.com/form3tech-oss/f1/v2/internal/run"
 	"github.com/form3tech-oss/f1/v2/internal/trigger/api"
 	"github.com/form3tech-oss/f1/v2/internal/trigger/file"
 	"github.com/form3tech-oss/f1/v2/pkg/f1/scenarios"
@@ -681,7 +680,7 @@ func c15RunPlan(c *core.Case, o *core.Outcome) {
 	td, _, _ := file.VerifTotals(rs)
 	trig := &api.Trigger{Trigger: file.VerifStagesWorker(rs), Description: "plan", Duration: td}
 	sc := scenarios.New().Add(&scenarios.Scenario{Name: "verifScenario", ScenarioFn: scenario})
-	fr, err := run.NewRun(options.RunOptions{Scenario: "verifScenario", MaxDuration: rs.MaxDuration, Concurrency: rs.Concurrency, IgnoreDropped: true},
+	fr, err := engine.NewRun(options.RunOptions{Scenario: "verifScenario", MaxDuration: rs.MaxDuration, Concurrency: rs.Concurrency, IgnoreDropped: true},
 		sc, trig, 2*time.Second, envsettings.Settings{Log: envsettings.Log{FilePath: "/dev/null"}}, m, engine.NewOutput(l, false))
 	if err != nil {
 		o.Inconc("harness: NewRun: %v", err)
